@@ -30,7 +30,7 @@ ASSUMPTIONS = ["https destinations end in a TLS failure (no TLS peer is attached
                "HTTP/1 client side (HTTP/2 multiplexed waiting on one pending connection is covered by C05)"]
 LEVEL_TEXT = "sampled exploration of reuse histories with an exact routing invariant"
 LEVEL_NOTE = "trusts the sans-io driver; sockets are identified with the Server objects passed to OpenConnection"
-QUICK_N = 20_000
+QUICK_N = 14_000
 THOROUGH_N = 800_000
 
 HOSTS = ["a.example", "b.example", "c.example"]
